@@ -9,5 +9,5 @@ mkdir -p build/cases evidence replays
 ( cd coq && timeout 3000 make -j16 -k ) > build/setup_make.log 2>&1
 echo "make exit: $?" >> build/setup_make.log
 tail -3 build/setup_make.log
-[ -x tools/setup_extra.sh ] && tools/setup_extra.sh
+for f in tools/setup_extra.d/*.sh; do [ -x "$f" ] && timeout 600 "$f"; done
 exit 0
